@@ -63,7 +63,32 @@ class Monitor:
             return 'exc', type(e).__name__
 
     def snapshot(self, dt):
-        return json.dumps(dt.export_datatype(), sort_keys=True), repr(dt)
+        return json.dumps(dt.export_datatype(), sort_keys=True), repr(dt), self.enum_value_reprs(dt)
+
+    @staticmethod
+    def enum_value_reprs(dt):
+        """how the values look that the enum nodes of the tree hand out (a member knows the enum it belongs to)"""
+        import frappy.datatypes as DT
+        out = []
+
+        def walk(t):
+            if isinstance(t, DT.EnumType):
+                try:
+                    first = sorted(m.value for m in t._enum.members)[0]
+                    v = t(first)
+                    out.append(repr(v) + '|' + repr(getattr(v, 'enum', None)))
+                except Exception as e:
+                    out.append(type(e).__name__)
+            elif isinstance(t, DT.ArrayOf):
+                walk(t.members)
+            elif isinstance(t, DT.TupleOf):
+                for m in t.members:
+                    walk(m)
+            elif isinstance(t, DT.StructOf):
+                for k in sorted(t.members):
+                    walk(t.members[k])
+        walk(dt)
+        return tuple(out)
 
     def probes(self, di, rng, n=10):
         out = []
